@@ -166,7 +166,7 @@ def _method(st, name):
 def _call(ctx, st, rule, name, args, construct):
     m = _method(st, name)
     try:
-        return m, st.I.call_scope(m, args, {}, bound=st.obj)
+        return m, st.I.call_scope(m, args, {}, bound=st.obj, top=True)
     except da.Unsupported as ex:
         ctx.undecided(rule, m, None, construct=construct, detail=f"cannot interpret {name}: {ex}")
         return m, None
@@ -242,7 +242,7 @@ def o6(ctx, st):
     da.HINTS[kv] = ((nel, npe, st.D, npe, st.D), "float")
     st.I.calls.clear()
     try:
-        st.I.call_scope(asm, [kv, st.conns, st.obj], {})
+        st.I.call_scope(asm, [kv, st.conns, st.obj], {}, top=True)
     except (da.Unsupported, RecursionError) as ex:
         ctx.undecided(rule, asm, None, construct="assembler", detail=f"cannot interpret the assembler: {ex}")
         return
